@@ -8,8 +8,10 @@
    What is NOT proved: that boolean3.cpp/boolean_result.cpp compute the right
    solid -- that is checked per output by the extracted classifier.
    Only statements closed by `exact`, each followed by Print Assumptions. *)
-From Coq Require Import ZArith List Bool Permutation.
-From MV Require Import Geo.WindingDefs Geo.Winding Gen.BoolConsts Geo.InclDefs Geo.Incl Geo.Perturb.
+From Coq Require Import ZArith QArith List Bool Permutation.
+From MV Require Import Par.Sched Par.ParDefs.
+From MV Require Import Geo.WindingDefs Geo.Winding Gen.BoolConsts Geo.InclDefs Geo.Incl Geo.Perturb
+  Geo.InclPar Geo.VoxelChain Geo.QOps Geo.KernelDefs Geo.FloodDefs Geo.Flood Geo.Kernel.
 Import ListNotations.
 Local Open Scope Z_scope.
 
@@ -208,3 +210,207 @@ Theorem shadows_withSign_form : forall (p q : Z) (expandP : bool) (nP nQ : Z),
   exists N0, 0 < N0 /\ forall N, N0 <= N -> N * p + gen_withSign expandP nP < N * q + nQ.
 Proof. exact shadows_withSign. Qed.
 Print Assumptions shadows_withSign_form.
+
+(* ---------- 4. the scans under every legal parallel schedule ---------------- *)
+(* exclusive_scan(Par, ..., init, AbsSum(), identity = 0) runs tbb::parallel_scan
+   (C13's protocol model: Par/Sched.legal_scan = any splits, any pre-scans, any
+   legal order).  AbsSum is associative but has NO identity on negative numbers
+   (AbsSum 0 (-3) = 3), so C13's scan_spec does not apply; nevertheless every
+   partial sum the protocol forms is init (>= 0), the raw 0, or a value AbsSum
+   returned (>= 0), and on those AbsSum acc x = acc + |x|: the run coincides
+   step for step with the (+)-scan of |x|.  Hence the vertex ranges are the
+   sequential ones under EVERY legal schedule. *)
+Theorem abs_sum_scan_parallel :
+  forall (xs : list Z) (init : Z) (ops : list scan_op) (out0 : nat -> Z),
+    0 <= init ->
+    legal_scan (length xs) ops = true ->
+    fst (excl_scan_par 0 gen_abssum xs init ops out0) = init + sum_abs xs /\
+    (forall p : nat, snd (excl_scan_par 0 gen_abssum xs init ops out0) p =
+                     if (p <? length xs)%nat then init + sum_abs (firstn p xs) else out0 p) /\
+    map (snd (excl_scan_par 0 gen_abssum xs init ops out0)) (seq 0 (length xs)) = exclusive_scan gen_abssum init xs.
+Proof.
+  intros xs init ops out0 Hi HL.
+  exact (conj (proj1 (abs_sum_scan_par xs init ops out0 Hi HL))
+        (conj (proj2 (abs_sum_scan_par xs init ops out0 Hi HL))
+              (proj1 (abs_sum_scan_par_is_sequential xs init ops out0 Hi HL)))).
+Qed.
+Print Assumptions abs_sum_scan_parallel.
+
+Theorem abs_sum_assoc_no_identity :
+  (forall a b c : Z, gen_abssum (gen_abssum a b) c = gen_abssum a (gen_abssum b c)) /\
+  (forall e : Z, gen_abssum e (-3) <> -3 /\ gen_abssum (-3) e <> -3).
+Proof. exact (conj gen_abssum_assoc (proj2 (proj2 gen_abssum_no_identity))). Qed.
+Print Assumptions abs_sum_assoc_no_identity.
+
+(* ---------- 5. equal winding => equal volume, for lattice voxel chains ------ *)
+(* Restricted form of "closed meshes with equal winding number at every generic
+   point have equal volume": for 2-chains generated by unit voxel cubes of the
+   n^3 grid (each with an orientation; faces shared by two voxels cancel), 6*volume
+   is 48 * the sum of the winding numbers over the voxel centres, so two chains
+   with the same winding at every centre have the same volume.  NOT proved for
+   arbitrary closed triangle meshes (that is what the exact volume comparison
+   of the check stands in for). *)
+Theorem chain_volume_is_winding_sum : forall (n : nat) (l : list (pt * bool)),
+  (forall cb, In cb l -> In (fst cb) (centres n 1)) ->
+  volume6 (chain_mesh l) = 48 * fold_right (fun c acc => winding (chain_mesh l) c + acc) 0 (centres n 1).
+Proof. exact chain_volume_is_sum_of_windings. Qed.
+Print Assumptions chain_volume_is_winding_sum.
+
+Theorem equal_winding_equal_volume_lattice : forall (n : nat) (l1 l2 : list (pt * bool)),
+  (forall cb, In cb l1 -> In (fst cb) (centres n 1)) ->
+  (forall cb, In cb l2 -> In (fst cb) (centres n 1)) ->
+  (forall c, In c (centres n 1) -> winding (chain_mesh l1) c = winding (chain_mesh l2) c) ->
+  volume6 (chain_mesh l1) = volume6 (chain_mesh l2).
+Proof. exact equal_winding_equal_volume. Qed.
+Print Assumptions equal_winding_equal_volume_lattice.
+
+(* ---------- 6. the intersection kernels of boolean3.cpp, exact port --------- *)
+(* Geo/KernelDefs.v ports Interpolate, Intersect, Shadow01, Kernel02, Kernel11,
+   Kernel12 over Q (divisions exact, isfinite fall-backs = zero denominators);
+   the correspondence run compares their integer outputs with the real kernels. *)
+
+(* Shadows over Q = strict order on infinitesimally perturbed values (lexicographic form) *)
+Theorem shadowsQ_is_perturbed_order : forall p q dp dq : Q,
+  gen_shadowsQ p q (dp - dq) = true <-> (p < q \/ (p == q /\ dp < dq))%Q.
+Proof. exact shadowsQ_perturbed. Qed.
+Print Assumptions shadowsQ_is_perturbed_order.
+
+Theorem shadowsQ_antisymmetry : forall p q dir : Q,
+  (gen_shadowsQ p q dir = true -> gen_shadowsQ q p (- dir) = false) /\
+  ((~ p == q \/ ~ dir == 0)%Q -> gen_shadowsQ p q dir = negb (gen_shadowsQ q p (- dir))).
+Proof. intros p q dir. exact (conj (shadowsQ_asym p q dir) (shadowsQ_total p q dir)). Qed.
+Print Assumptions shadowsQ_antisymmetry.
+
+(* Shadow01.  xleft ex P Q a b  ("P-vertex a, perturbed along (expandP ? + : -) its
+   normal, is left of Q-vertex b perturbed along its normal") is the ONE question
+   both passes ask: forward (P vertex a0 against the Q edge b1s -> b1e) computes
+   [a0 left of b1e] - [a0 left of b1s], backward (Q vertex a0 against the P edge)
+   computes [b1s left of a0] - [b1e left of a0] -- the same predicate with P on
+   the left in both, which is the expandP consistency of the two passes.
+   s01 = +1 / -1 iff the vertex lies in the perturbed half-open x-interval of the
+   edge (edge running right / left) AND the edge point above the vertex' x is
+   above the vertex in the perturbed y order. *)
+Theorem shadow01_spec : forall (ex : bool) (inP inQ : kmesh) (a0 b1 b1s b1e : Z),
+  (let sx := s01_x ex true inP inQ a0 b1s b1e in
+   let yz := interpolate (vpos inQ b1s) (vpos inQ b1e) (vx (vpos inP a0)) in
+   let dir := (vy (fnorm inQ (b1 / 3)%Z) + vy (fnorm inQ (hpair inQ b1 / 3)%Z))%Q in
+   shadow01 ex true a0 b1 b1s b1e inP inQ =
+   if (sx =? 0)%Z then (0%Z, None)
+   else ((if gen_shadowsQ (vy (vpos inP a0)) (fst yz) (- dir) then sx else 0%Z), Some yz)) /\
+  (let sx := s01_x ex false inP inQ a0 b1s b1e in
+   let yz := interpolate (vpos inP b1s) (vpos inP b1e) (vx (vpos inQ a0)) in
+   let dir := (vy (fnorm inP (b1 / 3)%Z) + vy (fnorm inP (hpair inP b1 / 3)%Z))%Q in
+   shadow01 ex false a0 b1 b1s b1e inQ inP =
+   if (sx =? 0)%Z then (0%Z, None)
+   else ((if gen_shadowsQ (fst yz) (vy (vpos inQ a0)) (gen_withSignQ ex dir) then sx else 0%Z), Some yz)) /\
+  (let s := s01_x ex true inP inQ a0 b1s b1e in
+   (s = 1 <-> xleft ex inP inQ a0 b1e = true /\ xleft ex inP inQ a0 b1s = false) /\
+   (s = -1 <-> xleft ex inP inQ a0 b1e = false /\ xleft ex inP inQ a0 b1s = true) /\
+   (s = 0 <-> xleft ex inP inQ a0 b1e = xleft ex inP inQ a0 b1s) /\ -1 <= s <= 1) /\
+  (let s := s01_x ex false inP inQ a0 b1s b1e in
+   (s = 1 <-> xleft ex inP inQ b1s a0 = true /\ xleft ex inP inQ b1e a0 = false) /\
+   (s = -1 <-> xleft ex inP inQ b1s a0 = false /\ xleft ex inP inQ b1e a0 = true) /\
+   (s = 0 <-> xleft ex inP inQ b1s a0 = xleft ex inP inQ b1e a0) /\ -1 <= s <= 1).
+Proof.
+  intros ex inP inQ a0 b1 b1s b1e.
+  exact (conj (shadow01_forward_spec ex inP inQ a0 b1 b1s b1e) (conj (shadow01_backward_spec ex inP inQ a0 b1 b1s b1e)
+        (conj (s01_x_forward_cases ex inP inQ a0 b1s b1e) (s01_x_backward_cases ex inP inQ a0 b1s b1e)))).
+Qed.
+Print Assumptions shadow01_spec.
+
+Theorem xleft_is_perturbed_order : forall (ex : bool) (inP inQ : kmesh) (a b : Z),
+  xleft ex inP inQ a b = true <->
+  (vx (vpos inP a) < vx (vpos inQ b) \/
+   (vx (vpos inP a) == vx (vpos inQ b) /\ gen_withSignQ ex (vx (vnorm inP a)) < vx (vnorm inQ b)))%Q.
+Proof. exact xleft_perturbed. Qed.
+Print Assumptions xleft_is_perturbed_order.
+
+(* Kernel02 (PARTIAL: the crossing-number form, not yet "inside the perturbed
+   triangle"): s02 is 0 or the 2-D crossing number of the +y ray from the
+   perturbed vertex with the three perturbed sides of the face (each side's
+   Shadow01 value with the sign of its direction); it is non-zero only if the
+   face is above the vertex in the perturbed z order.  Missing: the equivalence
+   of "crossing number = +-1" with an orientation-predicate definition of
+   "projects inside the perturbed triangle". *)
+Theorem kernel02_is_crossing_sum_partial : forall (ex fw : bool) (inA inB : kmesh) (a0 b2 s : Z) (z : option Q),
+  kernel02 ex fw inA inB a0 b2 = Some (s, z) ->
+  (s = 0 \/ s = s02_pre ex fw inA inB a0 b2) /\
+  (s <> 0 -> exists z02, z = Some z02 /\
+     (if fw then gen_shadowsQ (vz (vpos inA a0)) z02 (- vz (fnorm inB b2))%Q
+      else gen_shadowsQ z02 (vz (vpos inA a0)) (gen_withSignQ ex (vz (fnorm inB b2)))) = true).
+Proof. exact kernel02_s02. Qed.
+Print Assumptions kernel02_is_crossing_sum_partial.
+
+(* Kernel12: x12 = sigma * (s02(start) - s02(end)) - sum over the sides of the face of (+-1) * s11 *)
+Theorem kernel12_is_signed_sum : forall (ex fw : bool) (inP inQ : kmesh) (a1 b2 x : Z) (v : option v3),
+  kernel12 ex fw inP inQ a1 b2 = Some (x, v) ->
+  let inA := if fw then inP else inQ in
+  let inB := if fw then inQ else inP in
+  let eAs := hstart inA a1 in
+  let eAe := hend inA a1 in
+  x = (if fw then 1 else -1) * (k02s ex fw inA inB eAs b2 - k02s ex fw inA inB eAe b2)
+      - fold_right (fun fe acc => fsign fe * k11s ex fw inP inQ a1 eAs eAe fe + acc) 0 (face_edges inB b2).
+Proof. exact kernel12_x12. Qed.
+Print Assumptions kernel12_is_signed_sum.
+
+(* ---------- 7. from the kernels to the winding numbers w03 ------------------ *)
+(* For a CLOSED oriented B (pairing = involution reversing the edge; evaluated as
+   closed_meshb on every real operand by the correspondence run), the x12 of an
+   edge of A summed over all faces of B is the difference of the vertex windings
+   (sums of s02) of its end points, for ALL inputs, ties included: the Kernel11
+   terms cancel since every edge of B is seen once in each direction. *)
+Theorem x12_sum_is_winding_difference : forall (ex fw : bool) (inP inQ : kmesh) (nTriB : nat) (a1 : Z),
+  let inA := if fw then inP else inQ in
+  let inB := if fw then inQ else inP in
+  closed_mesh inB nTriB ->
+  (forall b, 0 <= b < Z.of_nat nTriB -> kernel12 ex fw inP inQ a1 b <> None) ->
+  zsum (x12v ex fw inP inQ a1) nTriB =
+  (if fw then 1 else -1) *
+  (zsum (k02s ex fw inA inB (hstart inA a1)) nTriB - zsum (k02s ex fw inA inB (hend inA a1)) nTriB).
+Proof. exact x12_sum_l. Qed.
+Print Assumptions x12_sum_is_winding_difference.
+
+(* Winding03's integer part: union-find over the unbroken forward halfedges
+   (quick-find model of DisjointSets), one sum per representative, flood fill.
+   Components are exactly the connectivity classes of the unbroken edges, and
+   if W does not change along unbroken edges and is what was computed at the
+   representatives, every vertex receives its own W -- independent of which
+   vertex the union-find chose as representative (ranks, ids, schedule). *)
+Theorem winding03_flood_fill_spec : forall (edges : list (Z * Z)) (W wroot : Z -> Z),
+  (forall a b, uf_find (uf_build edges) a = uf_find (uf_build edges) b <-> conn edges a b) /\
+  ((forall x y, In (x, y) edges -> W x = W y) ->
+   (forall i, wroot (uf_find (uf_build edges) i) = W (uf_find (uf_build edges) i)) ->
+   forall i, winding03 edges wroot i = W i).
+Proof. intros edges W wroot. exact (conj (uf_same_iff_conn edges) (winding03_spec_l edges W wroot)). Qed.
+Print Assumptions winding03_flood_fill_spec.
+
+(* ... and with the kernels: when the recorded intersection list is complete
+   (a forward halfedge without an entry has x12 = 0 against every face), every
+   vertex of A gets  sigma * sum over the faces of B of s02(v, face). *)
+Theorem winding03_is_vertex_winding : forall (ex fw : bool) (inP inQ : kmesh) (nHalfA nTriB : nat) (broken : list Z),
+  let inA := if fw then inP else inQ in
+  let inB := if fw then inQ else inP in
+  closed_mesh inB nTriB ->
+  (forall e b, 0 <= e < Z.of_nat nHalfA -> 0 <= b < Z.of_nat nTriB -> kernel12 ex fw inP inQ e b <> None) ->
+  (forall e b, 0 <= e < Z.of_nat nHalfA -> hstart inA e < hend inA e -> is_broken broken e = false ->
+               0 <= b < Z.of_nat nTriB -> x12v ex fw inP inQ e b = 0) ->
+  forall v, winding03 (unbroken_edges (hstart inA) (hend inA) nHalfA broken) (vertex_winding ex fw inA inB nTriB) v
+            = vertex_winding ex fw inA inB nTriB v.
+Proof. exact winding03_is_vertex_winding_l. Qed.
+Print Assumptions winding03_is_vertex_winding.
+
+Theorem w03_sum_is_vertex_winding : forall (ex fw : bool) (inA inB : kmesh) (nTriB : nat) (v : Z),
+  (forall b, 0 <= b < Z.of_nat nTriB -> kernel02 ex fw inA inB v b <> None) ->
+  w03_sum ex fw inA inB (map Z.of_nat (seq 0 nTriB)) v = Some (vertex_winding ex fw inA inB nTriB v).
+Proof. exact w03_sum_value. Qed.
+Print Assumptions w03_sum_is_vertex_winding.
+
+(* all hypotheses of the chain hold on a concrete pair (two tetrahedra in general position) *)
+Example kernel_chain_hypotheses_satisfiable :
+  let P := ex_tet 0 0 0 in
+  let Q := ex_tet (1 # 2) (1 # 3) (1 # 5) in
+  closed_mesh Q 4 /\ closed_mesh P 4 /\
+  (forall e b, 0 <= e < 12 -> 0 <= b < 4 -> kernel12 false true P Q e b <> None) /\
+  map (fun v => vertex_winding false true P Q 4 v) [0; 1; 2; 3] = [0; 0; 0; 1] /\
+  map (fun e => zsum (x12v false true P Q e) 4) [1; 3; 6] = [0; -1; -1].
+Proof. exact kernel_chain_example. Qed.
